@@ -294,7 +294,7 @@ def main(prop, tier="quick", jobs=None, seed=0, only=None, verbose=False):
     n_self = getattr(mod, "SELFCHECK", {"quick": 6, "thorough": 24}).get(tier, 6)
     sc_idx = set(rnd.sample(range(len(obs)), min(n_self, len(obs)))) if obs else set()
     jobs = jobs or int(os.environ.get("VERIF_JOBS", "0")) or min(16, os.cpu_count() or 4)
-    cap = int(os.environ.get("VERIF_OB_BUDGET", "300" if tier == "quick" else "14400"))
+    cap = int(os.environ.get("VERIF_OB_BUDGET", "300" if tier == "quick" else "2400"))
     for o in obs:
         o.budget_s = min(o.budget_s, cap)      # quick tier: no single obligation may run longer than 5 minutes
     tasks = [(prop, obs[i].asdict(), tier, seed, i in sc_idx) for i in order]
